@@ -31,26 +31,11 @@ Definition wf_vm (op : binop) (vm : vmatch) : bool :=
        | _ => true
        end.
 
-Fixpoint nodup_names (ms : list matcher) : bool :=
-  match ms with
-  | [] => true
-  | m :: r => negb (existsb (fun m' => String.eqb (m_name m') (m_name m)) r) && nodup_names r
-  end.
-
 (** the declared argument types agree with where the semantics looks for the vector argument *)
 Definition wf_call (f : string) (ats : list vtype) (args : list expr) : bool :=
   match sem_class f with
   | SCNone => false
-  | SCAbsent =>
-      (* the selector handed to absent() matches every label name at most once (what the generator emits; with a
-         duplicated name the engine keeps the label of `{a!="x", a="1"}` while absentLabels drops it) *)
-      is_vec_or_matrix_t (arg_type_of ats 0) &&
-      match args with
-      | [ESel ms] | [EMatrix (ESel ms)] => nodup_names ms
-      | [EParen _] => false   (* the engine unwraps the parentheses, absentLabels (5b88941) does not: known finding *)
-      | _ => true
-      end
-  | SCDst => is_vec_or_matrix_t (arg_type_of ats 0)
+  | SCAbsent | SCDst => is_vec_or_matrix_t (arg_type_of ats 0)
   | SCTimeLike => match args with [] => true | _ => is_vec_or_matrix_t (arg_type_of ats 0) end
   | _ => true
   end.
